@@ -13,9 +13,9 @@ func (f *Formatter) formatExpression(expr ast.Expression) *ChunkBuffer {
 	buf := f.chunkBuffer()
 
 	// leading comment
-	// ChunkBuffer breaks the line after a line comment by itself
-	if v := f.formatComments(expr.GetMeta().Leading, "", 0, false); v != "" {
-		buf.Write(v, Comment)
+	// One chunk per comment: ChunkBuffer breaks the line after a line comment by itself
+	for _, c := range expr.GetMeta().Leading {
+		buf.Write(f.formatComments(ast.Comments{c}, "", 0, false), Comment)
 	}
 
 	switch t := expr.(type) {
@@ -51,8 +51,8 @@ func (f *Formatter) formatExpression(expr ast.Expression) *ChunkBuffer {
 	}
 
 	// trailing comment
-	if v := f.formatComments(expr.GetMeta().Trailing, "", 0, false); v != "" {
-		buf.Write(v, Comment)
+	for _, c := range expr.GetMeta().Trailing {
+		buf.Write(f.formatComments(ast.Comments{c}, "", 0, false), Comment)
 	}
 
 	return buf
